@@ -138,6 +138,7 @@ typedef struct {
 	int ntok;
 	char tok[12][84];
 	bool quoted[12];
+	bool midword_quote;
 	char line[84];
 } expect_t;
 static expect_t expq[MAXDISP];
@@ -177,9 +178,11 @@ static bool parse_unambiguous(const char *line, int len, expect_t *e)
 			if (i < len && !is_ws(line[i]))
 				return false; /* quote closed in the middle of a word */
 		} else {
+			/* a quote character inside a bare word neither opens nor closes anything: arguments are quoted
+			 * as a whole, and the line is split at white space only */
 			while (i < len && !is_ws(line[i])) {
 				if (line[i] == '\'' || line[i] == '"')
-					return false; /* quote inside a bare word */
+					e->midword_quote = true;
 				t[n++] = line[i++];
 			}
 		}
@@ -345,6 +348,8 @@ static void compare(bool at_end)
 			return;
 		}
 		VH_COUNT("dispatches_compared_functionally");
+		if (e->midword_quote)
+			VH_COUNT("dispatches_compared_with_a_quote_inside_a_bare_word");
 		exp_checked++;
 		got_checked++;
 	}
@@ -629,6 +634,10 @@ static void random_case(long long c)
 					if (len < 0)
 						len = 0;
 				}
+			} else if (y < 33 && n > 0 && !is_ws((char)s[n - 1]) && s[n - 1] != '\b' && s[n - 1] != 3) {
+				/* an apostrophe or inch mark inside a word (don't, 5") */
+				s[n++] = vh_below(&r, 2) ? '\'' : '"';
+				len++;
 			} else {
 				s[n++] = (unsigned char)bare[vh_below(&r, 10)];
 				len++;
